@@ -49,7 +49,7 @@ type Knobs struct {
 	Persistent map[string]bool `json:"persistent,omitempty"`
 	StepCap    int             `json:"stepCap"`
 	RejectDev  bool            `json:"rejectDev,omitempty"` // devices refuse Sets containing DevRejectValue
-	// LateAck: "<prim>/<op>" prefixes of Atomix writes whose acknowledgement is scheduled separately from their effect
+	// LateAck: "<prim>/<op>/<key>" prefixes of Atomix calls whose answer is scheduled separately from their effect
 	LateAck []string `json:"lateAck,omitempty"`
 }
 
